@@ -371,6 +371,11 @@ fn one_mapping(text: &[u8], rng: &mut Rng, rep: &mut Reporter, case_idx: u64, ct
                             for _ in 0..iters {
                                 let i = keys[r.below(keys.len())];
                                 let use_cache = r.chance(1, 2);
+                                if let (Q::Line(c, m, l, f), true) = (&batch[i], r.chance(1, 3)) {
+                                    // a caller that only looks at the innermost frame
+                                    let _ = if use_cache { cache.0.frames_partial(c, m, *l, f.as_deref(), 1) } else { mapper.0.frames_partial(c, m, *l, f.as_deref(), 1) };
+                                    continue;
+                                }
                                 let ok = if use_cache { answer(&cache.0, &batch[i]) == exp_c[i] } else { answer(&mapper.0, &batch[i]) == exp_m[i] };
                                 if !ok && bad.len() < 3 {
                                     bad.push((i, use_cache));
